@@ -98,11 +98,14 @@ Definition round_solution (eps : Q) (columns : list pattern) (x : list Q) (deman
 
 (* root_bound = ceil(lp_obj - eps) if converged else -inf;
    proven(obj) = obj - root_bound < 1 - eps and (obj - root_bound) / max(abs(obj), 1e-10) < gap_tol
-   (the first conjunct since /repo b06cee9: roll counts are integers, a plan one roll above the bound is never "proven") *)
-Definition proven (eps gap_tol : Q) (root_bound : option Z) (obj : Q) : bool :=
+   The first conjunct exists since /repo b06cee9 (roll counts are integers: a plan one roll above the bound is never
+   "proven", however small the relative gap).  It is modelled as  obj - root_bound < 1 : every call but one passes an integer
+   obj, for which `< 1 - eps` and `< 1` agree for all 0 <= eps < 1; the remaining call (root LP integral) passes lp_obj with
+   root_bound = ceil(lp_obj - eps), so lp_obj - root_bound <= eps and both forms are true for eps < 1/2. *)
+Definition proven (gap_tol : Q) (root_bound : option Z) (obj : Q) : bool :=
   match root_bound with
   | None => false
-  | Some rb => Qltb (obj - inject_Z rb) (1 - eps)
+  | Some rb => Qltb (obj - inject_Z rb) 1
                && Qltb ((obj - inject_Z rb) / qmax (Qabs obj) (1 # 10000000000)) gap_tol
   end.
 
@@ -127,7 +130,7 @@ Definition branch_and_price_root (eps gap_tol : Q) (is_cs : bool) (pricing : lis
           let after_integral :=
             match round_solution eps columns x demands with
             | Some (sol, total) =>
-                if proven eps gap_tol root_bound (inject_Z total) then mk (BpDone OPTIMAL (Some sol) (Some total) cg_iters)
+                if proven gap_tol root_bound (inject_Z total) then mk (BpDone OPTIMAL (Some sol) (Some total) cg_iters)
                 else mk (BpTree root_bound (Some (sol, total)))
             | None => mk (BpTree root_bound None)
             end in
@@ -135,7 +138,7 @@ Definition branch_and_price_root (eps gap_tol : Q) (is_cs : bool) (pricing : lis
           | None =>
               let sol := build_solution eps columns x in
               if covers sol demands
-              then mk (BpDone (if proven eps gap_tol root_bound lp_obj then OPTIMAL else FEASIBLE) (Some sol) (Some (plan_total sol)) cg_iters)
+              then mk (BpDone (if proven gap_tol root_bound lp_obj then OPTIMAL else FEASIBLE) (Some sol) (Some (plan_total sol)) cg_iters)
               else after_integral
           | Some _ => after_integral
           end
@@ -187,13 +190,13 @@ Definition solve_bp_custom_root (eps gap_tol : Q) (pricing : pricing_fn) (demand
 
 (* What every answer produced by the tree search satisfies, given the model's root (see the return statements of
    _branch_and_price after the tree is created: OPTIMAL iff proven(best_obj); INFEASIBLE iff no incumbent). *)
-Definition tree_answer_ok (eps gap_tol : Q) (root_bound : option Z) (incumbent : option (plan * Z))
+Definition tree_answer_ok (gap_tol : Q) (root_bound : option Z) (incumbent : option (plan * Z))
            (st : Cg.status) (obj : option Z) : bool :=
   match st, obj with
   | INFEASIBLE, None => match incumbent with None => true | Some _ => false end
   | INFEASIBLE, Some _ => false
   | _, None => false
   | _, Some o =>
-      status_eqb st (if proven eps gap_tol root_bound (inject_Z o) then OPTIMAL else FEASIBLE)
+      status_eqb st (if proven gap_tol root_bound (inject_Z o) then OPTIMAL else FEASIBLE)
       && match incumbent with Some (_, t) => Z.leb o t | None => true end
   end.
